@@ -4,9 +4,84 @@
 // This file contains comments only; it adds no code to any build.
 package shutterservice
 
-//@ pred validRef(r) := r.Offset <= 4294967295 && (r.Dynamic ==> r.Offset >= 4)
+// ---- C17: event trigger definitions -------------------------------------------------------------
+//
+//@ const MaxUint32 = 4294967295
+//@ pred nInt(op) := ite(op <= 4, 1, 0)
+//@ pred nByte(op) := ite(op == 5, 1, 0)
+//@ pred validRef(r) := r.Offset <= MaxUint32 && (r.Dynamic ==> r.Offset >= 4)
+//@ pred validArgs(p) := forall i :: 0 <= i && i < len(p.IntArgs) ==> (p.IntArgs[i] != nil && bigval(p.IntArgs[i]) >= 0)
+//@ pred validPred(p) := p.Op <= 5 && len(p.IntArgs) == nInt(p.Op) && len(p.ByteArgs) == nByte(p.Op) && validArgs(p)
+//@ pred topicEq(lp) := lp.LogValueRef.Offset < 4 && lp.ValuePredicate.Op == 5
+//@ pred validLP(lp) := validRef(lp.LogValueRef) && validPred(lp.ValuePredicate) && (topicEq(lp) ==> len(lp.ValuePredicate.ByteArgs[0]) == 32)
+//@
+//@ func (Op).Validate
+//@   ensures ret0 == nil <==> op <= 5
+//@ func (Op).NumIntArgs
+//@   ensures ret0 == nInt(op)
+//@ func (Op).NumByteArgs
+//@   ensures ret0 == nByte(op)
+//@
+//@ func (*LogValueRef).Validate
+//@   requires r != nil
+//@   ensures ret0 == nil <==> validRef(r)
+//@ func (*LogValueRef).IsTopic
+//@   requires r != nil
+//@   ensures ret0 <==> r.Offset < 4
+//@
+//@ func (*ValuePredicate).validateArgNums
+//@   requires p != nil
+//@   ensures ret0 == nil <==> (len(p.IntArgs) == nInt(p.Op) && len(p.ByteArgs) == nByte(p.Op))
+//@ func (*ValuePredicate).validateArgValues
+//@   requires p != nil
+//@   ensures ret0 == nil <==> validArgs(p)
+//@   invariant forall j :: 0 <= j && j <= rangeindex ==> (p.IntArgs[j] != nil && bigval(p.IntArgs[j]) >= 0)
+//@ func (*ValuePredicate).Validate
+//@   requires p != nil
+//@   ensures ret0 == nil <==> validPred(p)
+//@ func (*LogPredicate).Validate
+//@   requires p != nil
+//@   ensures ret0 == nil <==> validLP(p)
 //@
 //@ func (*LogValueRef).GetValue
 //@   requires r != nil && log != nil
 //@   requires validRef(r)
 //@   opt bounded-alloc = 32 + len(log.Data)
+//@
+//@ func (*ValuePredicate).Match
+//@   requires p != nil && validPred(p)
+//@   ensures ret1 == nil
+//@   ensures p.Op == 0 ==> (ret0 <==> be_int(content(value)) <  bigval(p.IntArgs[0]))
+//@   ensures p.Op == 1 ==> (ret0 <==> be_int(content(value)) <= bigval(p.IntArgs[0]))
+//@   ensures p.Op == 2 ==> (ret0 <==> be_int(content(value)) == bigval(p.IntArgs[0]))
+//@   ensures p.Op == 3 ==> (ret0 <==> be_int(content(value)) >  bigval(p.IntArgs[0]))
+//@   ensures p.Op == 4 ==> (ret0 <==> be_int(content(value)) >= bigval(p.IntArgs[0]))
+//@   ensures p.Op == 5 ==> (ret0 <==> content(value) == content(p.ByteArgs[0]))
+//@
+//@ func (*LogPredicate).Match
+//@   requires p != nil && log != nil && validLP(p)
+//@   ensures ret1 == nil
+//@
+//@ pred noDupTopics(d) := forall a, b :: 0 <= a && a < b && b < len(d.LogPredicates) && topicEq(d.LogPredicates[a]) && topicEq(d.LogPredicates[b]) ==> d.LogPredicates[a].LogValueRef.Offset != d.LogPredicates[b].LogValueRef.Offset
+//@ pred validDef(d) := (forall i :: 0 <= i && i < len(d.LogPredicates) ==> validLP(d.LogPredicates[i])) && noDupTopics(d)
+//@
+//@ func (*EventTriggerDefinition).Validate
+//@   requires d != nil
+//@   ensures ret0 == nil ==> validDef(d)
+//@   invariant@1 forall j :: 0 <= j && j <= rangeindex ==> validLP(d.LogPredicates[j])
+//@   invariant@2 forall j :: 0 <= j && j <= rangeindex && topicEq(d.LogPredicates[j]) ==> has(topicMap, d.LogPredicates[j].LogValueRef.Offset)
+//@   invariant@2 forall k :: has(topicMap, k) ==> exists j :: 0 <= j && j <= rangeindex && topicEq(d.LogPredicates[j]) && d.LogPredicates[j].LogValueRef.Offset == k
+//@   invariant@2 forall a, b :: 0 <= a && a < b && b <= rangeindex && topicEq(d.LogPredicates[a]) && topicEq(d.LogPredicates[b]) ==> d.LogPredicates[a].LogValueRef.Offset != d.LogPredicates[b].LogValueRef.Offset
+//@
+//@ func (*EventTriggerDefinition).Match
+//@   requires d != nil && log != nil && validDef(d)
+//@   ensures ret1 == nil
+//@
+//@ pred topicsFromPreds(d, topics, upto) := forall k :: 0 <= k && k < len(topics) && len(topics[k]) != 0 ==> (exists j :: 0 <= j && j <= upto && topicEq(d.LogPredicates[j]) && d.LogPredicates[j].LogValueRef.Offset == k)
+//@ func (*EventTriggerDefinition).ToFilterQuery
+//@   requires d != nil && validDef(d)
+//@   ensures ret1 == nil
+//@   invariant fresh(topics)
+//@   invariant len(topics) <= 4
+//@   invariant topicsFromPreds(d, topics, rangeindex)
+//@   invariant@2 topicIndex < 4 && topicIndex == d.LogPredicates[rangeindex + 1].LogValueRef.Offset
